@@ -454,6 +454,32 @@ def standard_proof_steps(ck, translators=None, extra_targets=()):
             ck.unchecked(f'theorem {t["name"]} depends on unlisted axioms', ', '.join(bad))
             ok_all = False
     ck.extra['theorems'] = [t['name'] + ('' if not t['assumptions'] else ' [' + ','.join(t['assumptions']) + ']') for t in thms]
+    if ck.tier == 'thorough':
+        # independent re-check of the compiled files and everything they depend on
+        with Lock():
+            rc, out = run(['coqchk', '-o', '-Q', 'gen', 'Gen', '-Q', 'model', 'Model', '-Q', 'proofs', 'Proofs', '-Q', 'props', 'Props',
+                           f'Props.{pid}'], 3000, cwd=COQ)
+        sections = {}
+        cur = None
+        for line in out.split('\n'):
+            mm = re.match(r'\* ([^:]+):\s*(.*)$', line.strip())
+            if mm:
+                cur = mm.group(1).strip()
+                sections[cur] = [mm.group(2).strip()] if mm.group(2).strip() else []
+            elif cur is not None and line.strip():
+                sections[cur].append(line.strip())
+        def items(key):
+            return [x for x in sections.get(key, ['?']) if x != '<none>']
+        axioms = items('Axioms')
+        bad_ax = [a for a in axioms if a.split()[0] not in allowed]
+        okc = rc == 0 and 'Modules were successfully checked' in out and 'Axioms' in sections and not bad_ax and \
+            not items('Constants/Inductives relying on type-in-type') and not items('Constants/Inductives relying on unsafe (co)fixpoints') and \
+            not items('Inductives whose positivity is assumed')
+        ck.oblige(f'coqchk -o Props.{pid}: modules re-checked, no unlisted axioms, no type-in-type / unsafe fixpoints / assumed positivity', okc, 'coqchk', out[-1500:])
+        ck.extra['coqchk_axioms'] = axioms
+        if not okc:
+            ck.unchecked(f'coqchk of Props.{pid}', out[-1500:])
+            ok_all = False
     return ok_all
 
 
